@@ -202,13 +202,37 @@ func init() {
 	// pctim + adimp ≤ 1 (area fractions), at least one positive unit-hydrograph proportion.
 	regModel(&ModelGen{Name: "Sacramento",
 		Params: sacParams,
-		Inputs: func(r *Rng, T int, p []float64) [][]float64 { return RainPet(r, T) },
+		Inputs: func(r *Rng, T int, p []float64) [][]float64 {
+			if p[5] <= 15 && p[2] <= 0.05 && T >= 8 && r.Chance(0.8) {
+				return sacStressSeries(r, T)
+			}
+			return RainPet(r, T)
+		},
 		// "initial states produced by the model itself": the final state of a warm-up run of the real model from
 		// its own initial state, same parameters, another series (wet or dry spell)
 		States: func(r *Rng, p []float64) []float64 {
 			return warmState(r, "Sacramento", p, r.Range(1, 60))
 		},
 	})
+}
+
+// sacStressSeries: a wet spell filling the upper zone, a dry spell with high evaporative demand, then a storm.
+func sacStressSeries(r *Rng, T int) [][]float64 {
+	rain := make([]float64, T)
+	pet := ConstSeries(T, r.Uniform(6, 20))
+	wet := r.Range(2, 4)
+	dry := r.Range(1, 12)
+	for i := 0; i < T; i++ {
+		switch ph := i % (wet + dry + 2); {
+		case ph < wet:
+			rain[i] = r.Uniform(60, 120)
+		case ph < wet+dry:
+			rain[i] = 0
+		default:
+			rain[i] = r.Uniform(40, 200)
+		}
+	}
+	return [][]float64{rain, pet}
 }
 
 // warmState runs the real model from its own initial state over a drawn series and returns the final state row.
@@ -258,6 +282,16 @@ func sacParams(r *Rng) []float64 {
 		r.F01() * boolTo(r.Chance(0.6)),
 		r.F01() * boolTo(r.Chance(0.5)),
 		r.F01() * boolTo(r.Chance(0.5)),
+	}
+	if r.Chance(0.12) {
+		// thin lower-zone tension store under a thick upper zone, slow interflow, some ADIMP area: the regime in which
+		// the additional-impervious-area saturation ratio (adimc-uztwc)/lztwm becomes strongly negative after a dry spell
+		p = []float64{0.01, 0.05, r.Uniform(0.005, 0.05), r.Uniform(60, 125), r.Uniform(50, 75), r.Uniform(5, 15), 25, 60,
+			0.06, 1, 40, 0, 0, 0.01, r.Uniform(0.02, 0.3), 0, 0.3, 0.8, 0.1, 0.05, 0.03, 0.02}
+		if r.Chance(0.15) { // the minimal published failing input of fixes/sacramento-adimp-ratio.diff
+			p[2], p[3], p[4], p[5], p[14] = 0.01, 60, 75, 5, 0.1
+		}
+		return p
 	}
 	if r.Chance(0.1) { // the documented defaults
 		p = []float64{0.01, 0.05, 0.3, 50, 40, 130, 25, 60, 0.06, 1, 40, 0, 0, 0.01, 0, 0, 0.3, 0.8, 0.1, 0.05, 0.03, 0.02}
